@@ -42,6 +42,7 @@ public:
     static void addPos(BBook& b, Position& pos, const Move& m, std::vector<U64>& ts) { b.addPosToBook(pos, m, ts); }
     static BookNode* node(const BBook& b, U64 h) { return b.getBookNode(h); }
     static void addPending(BBook& b, U64 h) { b.addPending(h); }
+    static void writeBackup(BBook& b, const BookNode& n) { b.writeBackup(n); }
     static void removePending(BBook& b, U64 h) { b.removePending(h); }
     static BookData& data(BBook& b) { return b.bookData; }
     static const std::unordered_map<U64, std::shared_ptr<BookNode>>& nodes(const BBook& b) { return b.bookNodes; }
@@ -503,6 +504,9 @@ struct Hist {
         if (!bn) { viol({"node-set", "node n" + std::to_string(node) + " not found by getBookNode"}); return true; }
         bn->setSearchResult(BT::data(*book), best, score, time);
         M.n[node].st.ss = score; M.n[node].st.best = best; M.n[node].st.time = (U32)time;
+        // what Book::extendBook does when a search result is committed: the node's new record is appended to the backup file, which
+        // then holds several records of that node; reading the file back must keep the last one
+        if (!backupFile.empty() && r.chance(70)) { BT::writeBackup(*book, *bn); backupExp[nd.hash] = M.n[node].st; rep.add("backup_records_appended_for_existing_nodes"); }
         rep.add("op_set"); rep.add("set_score_" + kind); rep.add("set_best_" + bk);
         return true;
     }
@@ -668,7 +672,7 @@ struct Hist {
         narrowK = nk[r.below(6)];
         if (r.chance(50)) { K.depthCost = r.range(1, 250); K.own = r.range(1, 250); K.other = r.range(1, 250); }
         tmpFile = "/tmp/h_bb_" + std::to_string((long)getpid()) + ".book";
-        if (r.chance(20)) backupFile = "/tmp/h_bb_" + std::to_string((long)getpid()) + ".backup";
+        if (r.chance(35)) backupFile = "/tmp/h_bb_" + std::to_string((long)getpid()) + ".backup";
         M.init();
         log("new book costs=" + std::to_string(K.depthCost) + "/" + std::to_string(K.own) + "/" + std::to_string(K.other) + " class=" + std::to_string(cls) + " narrow=" + std::to_string(narrowK) + (backupFile.empty() ? "" : " backup"));
         book.reset(new BBook(backupFile, K.depthCost, K.own, K.other));
